@@ -49,6 +49,8 @@ fn app_type(n: usize) -> TypeId {
 const SECOND: u64 = 1 << 40;
 const WILD: [u8; 4] = [0, 0, 0, 0];
 const BCAST: [u8; 4] = [255, 255, 255, 255];
+/// Datagrams to 127.0.0.0/8 are handed to the sending machine's own tap and never reach a network.
+const LOOP: [u8; 4] = [127, 0, 0, 1];
 
 impl E2Run for UdpBind {
     fn id(&self) -> &'static str {
@@ -115,9 +117,10 @@ impl E2Run for UdpBind {
                 let n_binds = sim::choose(6) as usize;
                 for _ in 0..n_binds {
                     let app = sim::choose(4) as usize;
-                    let addr = match sim::choose(6) {
+                    let addr = match sim::choose(7) {
                         0 | 1 => WILD,
                         2 => BCAST,
+                        3 => LOOP,
                         _ => my_ips[sim::choose(my_ips.len() as u64) as usize],
                     };
                     let port = ports[sim::choose(3) as usize];
@@ -149,9 +152,18 @@ impl E2Run for UdpBind {
                     let slot = sim::choose(my_ips.len() as u64) as usize;
                     let net = taps[m][slot].0;
                     let others: Vec<usize> = (0..n_machines).filter(|x| taps[*x].iter().any(|(n, _)| *n == net)).collect();
-                    let dst_ip = match sim::choose(8) {
+                    let dst_ip = match sim::choose(9) {
                         0 => BCAST,
                         1 => [10, 0, net as u8, 200], // nobody
+                        // the machine itself through the loopback address (with ARP the open would spend
+                        // two seconds asking for 127.0.0.1 and fail: not used there)
+                        8 if !with_arp => {
+                            if sim::chance(1, 3) {
+                                [127, sim::choose(256) as u8, sim::choose(256) as u8, 1 + sim::choose(254) as u8]
+                            } else {
+                                LOOP
+                            }
+                        }
                         _ => {
                             let o = others[sim::choose(others.len() as u64) as usize];
                             [10, 0, net as u8, o as u8 + 1]
@@ -162,7 +174,8 @@ impl E2Run for UdpBind {
                     let len = match sim::choose(6) {
                         0 => 8,
                         1 => max,
-                        2 => max + 1,
+                        // (the loopback path has no link and no MTU: the refusal of an oversize frame is C05's subject)
+                        2 if dst_ip[0] != 127 => max + 1,
                         _ => 8 + sim::choose(max as u64 - 8) as usize,
                     };
                     let gap = sim::choose(3) * sim::choose(40);
@@ -350,6 +363,25 @@ impl E2Run for UdpBind {
                 }
             }
         }
+        // loopback: exactly the sending machine, exact binding of that very address first, then the wildcard; nothing on a network
+        let mut loopback_unbound: Vec<u64> = vec![];
+        for s in sents.iter().filter(|s| s.dst.0[0] == 127 && s.opened) {
+            out.count("probe_datagram_to_a_loopback_address");
+            let table = if s.id & SECOND != 0 { &final_table } else { &first_round_table };
+            let app = table.get(&(s.machine, s.dst.0, s.dst.1)).or_else(|| table.get(&(s.machine, WILD, s.dst.1)));
+            match app {
+                Some(app) => *expected.entry((s.id, s.machine, *app)).or_insert(0) += 1,
+                None => {
+                    // the loopback path hands the datagram up inside the send call, so the sender may be told
+                    // that nobody took it; the statement only asks that it disturbs nothing
+                    out.count("probe_datagram_without_binding_dropped");
+                    loopback_unbound.push(s.id);
+                }
+            }
+            if state.frames.iter().any(|f| f.protocol == ipv4_type && f.bytes.len() >= 36 && payload_id(&f.bytes[28..]) == Some(s.id)) {
+                out.violate(Violation::new("loopback", "frame-on-a-network", format!("datagram {} to {:?} appeared on a network", s.id, s.dst.0)));
+            }
+        }
         let mut got: BTreeMap<(u64, usize, usize), u32> = BTreeMap::new();
         for r in &state.rx {
             let Some(id) = payload_id(&r.payload) else {
@@ -405,7 +437,7 @@ impl E2Run for UdpBind {
                 if s.sent_ok || on_wire {
                     out.violate(Violation::new("mtu", "oversize-datagram-sent", format!("datagram {} of {} bytes on MTU {} was not refused", s.id, s.len, mtus[s.net])));
                 }
-            } else if s.opened && !s.sent_ok {
+            } else if s.opened && !s.sent_ok && !loopback_unbound.contains(&s.id) {
                 out.violate(Violation::new("send", "fitting-datagram-refused", format!("datagram {} of {} bytes on MTU {} was refused", s.id, s.len, mtus[s.net])));
             }
             if !s.opened {
@@ -428,7 +460,7 @@ impl E2Run for UdpBind {
         ScenarioInfo {
             engine: "E2 netsim".into(),
             level: "exploration".into(),
-            rule: "one run = 2..6 machines on 1..2 networks (all with or all without ARP), four recording applications per machine with generated exact / wildcard / limited-broadcast / duplicate bindings, generated datagrams (payload 8..MTU-28 and MTU-27, bound and unbound ports, unclaimed addresses) under seeded frame delays and task-order perturbation; a 15-line reference model predicts every delivery from the frames seen on the wire; distinct = hash of decisions, frames and deliveries".into(),
+            rule: "one run = 2..6 machines on 1..2 networks (all with or all without ARP), four recording applications per machine with generated exact / wildcard / limited-broadcast / duplicate bindings, generated datagrams (payload 8..MTU-28 and MTU-27, bound and unbound ports, unclaimed addresses, loopback addresses) under seeded frame delays and task-order perturbation; a 15-line reference model predicts every delivery from the frames seen on the wire; distinct = hash of decisions, frames and deliveries".into(),
             real_components: vec!["Udp, UdpSession, Ipv4, Ipv4Session, Arp, Pci, PciSession, Network, Machine, run_internet".into()],
             stub_components: vec!["recording applications (harness)".into()],
             fault_kinds: vec!["frame delay / reordering".into(), "task-order perturbation (poll deferral)".into()],
